@@ -126,7 +126,7 @@ func (ss *SpecSet) LoadFile(path, pkgPath string, trusted bool) error {
 
 var clauseKW = map[string]bool{"preserves": true, "maintains": true, "requires": true, "ensures": true, "modifies": true, "instantiate": true, "loop": true,
 	"ghost": true, "callback": true, "modifies-if": true, "closeonly": true, "panics-iff": true, "panics-when": true, "invariant": true, "opt": true, "monitor": true, "assert": true,
-	"func": true, "assume-func": true, "type": true, "assumes": true, "global-invariant": true, "axiom": true, "specfun": true, "global": true, "sentinel": true, "package": true, "end": true}
+	"func": true, "assume-func": true, "assume-func-here": true, "type": true, "assumes": true, "global-invariant": true, "axiom": true, "specfun": true, "global": true, "sentinel": true, "package": true, "end": true}
 
 func (ss *SpecSet) parse(src, file, pkgPath string, trusted bool) error {
 	lines := strings.Split(src, "\n")
@@ -193,7 +193,7 @@ func (ss *SpecSet) parse(src, file, pkgPath string, trusted bool) error {
 		switch kw {
 		case "package":
 			pkgPath = rest
-		case "func", "assume-func":
+		case "func", "assume-func", "assume-func-here":
 			curT, curM, curCB = nil, nil, nil
 			c := &Contract{File: file, Line: l.no, Trusted: trusted, Inst: map[string][]string{}, LoopInv: map[int][]*Clause{}, LoopMod: map[int][]*Clause{}, Callback: map[string]*Contract{}, Opts: map[string]string{}}
 			key, params, results, err := parseFuncHead(rest)
@@ -212,6 +212,12 @@ func (ss *SpecSet) parse(src, file, pkgPath string, trusted bool) error {
 				// the claims that load this contract file only
 				c.Trusted = true
 				c.DeclPkg = pkgPath
+			} else if kw == "assume-func-here" {
+				// the same, but for calls made from the declaring package only (two packages of one claim may
+				// describe one library function - container/heap.Pop - in terms of their own ghost state)
+				c.Trusted = true
+				c.DeclPkg = pkgPath
+				key = key + "@" + pkgPath
 			} else {
 				key = pkgPath + "." + key
 			}
